@@ -293,4 +293,9 @@ def run(chk, ctx):
     r8(chk, ctx)
     from . import round3
     round3.send_task_failure_error(chk, ctx)
+    from . import round4, c04
+    round4.canceller_removal_callers(chk, ctx)
+    round4.task_outcome_once(chk, ctx)
+    round3.rest_no_instance_identity(chk, ctx)   # a token is honoured by whichever instance receives the call
+    c04.r3(chk, ctx)                         # each launch has its own correlation key / child name
     chk.assume("base64 round-trips; ':' does not occur in event ids (uuid4) or reply queue names")
